@@ -10,5 +10,6 @@ CONSTANTS
   RSet = @RS@
   BoxCodes = @BOXES@
   Emit = @EMIT@
+  Far = @FAR@
 INVARIANTS @INVS@
 CHECK_DEADLOCK FALSE
